@@ -521,10 +521,16 @@ def A4(ctx: Ctx) -> RuleResult:
     ok = False
     for v in vs:
         params = v.params()
-        outs = ctx.ev.run(v, {params[0]: Sym('self', 'HplExpression'), params[2]: Sym('value')})
-        txt = ' '.join(str(t) for t in all_terms(outs))
-        if 'default_data_type' in txt and '$value' in txt:
-            ok = True
+        # (the kind type set stays visible as self.default_data_type: the per-class table above decides its values)
+        ev_v = Evaluator(ctx.model, inline=lambda f, d: f.name != 'default_data_type' and ctx.ev.inline(f, d))
+        outs = ev_v.run(v, {params[0]: Sym('self', 'HplExpression'), params[2]: Sym('value')})
+        sv, vv = Attr(Sym('self', 'HplExpression'), 'default_data_type'), Sym('value')
+        for t in all_terms(outs):
+            for x in walk(t):
+                if isinstance(x, Op) and x.op == '&' and sv in x.args and vv in x.args:
+                    ok = True
+                if isinstance(x, Call) and call_name(x) in ('can_be', 'cast') and {call_recv(x)} | set(x.args) >= {sv, vv}:
+                    ok = True
     (r.ok('HplExpression.data_type validator: non-empty intersection with the kind type set') if ok else r.fail('HplExpression.data_type:validator', 'no validator relates data_type to default_data_type', ex.where))
     return r
 
